@@ -70,7 +70,7 @@ def run_pyvc(pid, prop, tier):
     timeout = 30000 if tier == 'quick' else 120000        # per obligation; the slowest takes ~7 s on an idle machine
     for fam in prop['families']:
         rep = verify_family(fam, fuel=fuel, timeout=timeout, serves=pid, refute_fuel=3 if tier == 'quick' else 4,
-                            deep=(tier != 'quick'))
+                            deep=(tier != 'quick'), cross=(tier != 'quick'))
         out['assumptions'].extend(rep['assumptions'])
         out['trusted'].extend(rep['trusted'])
         for meta, results in rep['units']:
